@@ -103,6 +103,11 @@ func (s *Script) assume(guard, fact Term) {
 	}
 }
 
+// assumeClosed adds a closed fact even while a quantified specification is being evaluated
+func (s *Script) assumeClosed(fact Term) {
+	s.lines = append(s.lines, fmt.Sprintf("(assert %s)", fact))
+}
+
 func (s *Script) global(name, decl string) {
 	if !s.sortSeen[name] {
 		s.sortSeen[name] = true
@@ -279,6 +284,7 @@ type TypeMap struct {
 	structs map[string]*StructInfo
 	busy    map[string]bool
 	tags    map[string]int // dynamic type tags for interfaces
+	onHeapKey func(key string, t types.Type)
 }
 
 type StructInfo struct {
@@ -364,6 +370,9 @@ func (tm *TypeMap) sortOf1(t types.Type) string {
 	case *types.Chan:
 		return "Opaque"
 	case *types.Array:
+		if u.Len() == 0 {
+			return "Opaque"
+		}
 		return "(Array Int " + tm.sortOf(u.Elem()) + ")"
 	case *types.Struct:
 		return tm.structInfo(t).Sort
@@ -438,16 +447,17 @@ func (tm *TypeMap) mapInfo(m *types.Map) *MapInfo {
 // heap key and cell sort for a pointer's element type
 func (tm *TypeMap) heapKey(elem types.Type) (key, sort string) {
 	elem = types.Unalias(elem)
-	if m, ok := elem.Underlying().(*types.Map); ok {
-		_ = m
+	k := typeKey(elem)
+	if tm.onHeapKey != nil {
+		tm.onHeapKey(k, elem)
 	}
-	return typeKey(elem), tm.sortOf(elem)
+	return k, tm.sortOf(elem)
 }
 
 func (tm *TypeMap) zero(t types.Type) Term {
 	t = types.Unalias(t)
 	if isTimeTime(t) {
-		return "zerotime"
+		return "(mktime (- 62135596800000000000) (mkref 0 0))"
 	}
 	switch u := t.Underlying().(type) {
 	case *types.Basic:
@@ -463,16 +473,19 @@ func (tm *TypeMap) zero(t types.Type) Term {
 		case u.Info()&types.IsFloat != 0:
 			return "f64zero"
 		case u.Kind() == types.UntypedNil:
-			return "nilref"
+			return "(mkref 0 0)"
 		}
 		return "opaquezero"
 	case *types.Pointer, *types.Map:
-		return "nilref"
+		return "(mkref 0 0)"
 	case *types.Slice:
-		return "nilslice"
+		return "(mkslice 0 0 0 0)"
 	case *types.Interface:
-		return "niliface"
+		return "(mkiface 0 0)"
 	case *types.Array:
+		if u.Len() == 0 {
+			return "opaquezero"
+		}
 		return fmt.Sprintf("((as const %s) %s)", tm.sortOf(t), tm.zero(u.Elem()))
 	case *types.Struct:
 		si := tm.structInfo(t)
